@@ -87,6 +87,16 @@ def cases(draw):
             edges.append({"from": i, "to": j, "late": True,
                           "slot": draw(st.sampled_from(["property", "additionalProperties"])),
                           "wrappers": draw(st.lists(st.sampled_from(WRAPPERS), max_size=2))})
+    # some properties are named like the keyword attributes the traversal looks up
+    special = ["properties", "additionalProperties", "patternProperties", "propertyNames", "dependencies",
+               "items", "elements", "element", "contains", "additionalItems", "default", "required"]
+    used = {}
+    for e in edges:
+        if draw(st.integers(0, 3)) == 0:
+            name = draw(st.sampled_from(special))
+            if name not in used.setdefault(e["from"], set()):
+                used[e["from"]].add(name)
+                e["pname"] = name
     bases = {}
     for i in range(1, n):
         if draw(st.integers(0, 3)) == 0:
@@ -108,7 +118,7 @@ def build(case):
                 el = wrap(w, el)
             slot = e["slot"]
             if slot == "property":
-                props[f"p{i}_{k}"] = Property(el)
+                props[e.get("pname") or f"p{i}_{k}"] = Property(el)
             elif slot == "additionalProperties" and "additionalProperties" not in kwargs:
                 kwargs["additionalProperties"] = el
             elif slot == "propertyNames" and "propertyNames" not in kwargs:
@@ -118,7 +128,7 @@ def build(case):
             elif slot == "dependencies":
                 deps[f"k{k}"] = el
             else:
-                props[f"p{i}_{k}"] = Property(el)
+                props[e.get("pname") or f"p{i}_{k}"] = Property(el)
         if pattern:
             kwargs["patternProperties"] = pattern
         if deps:
